@@ -33,14 +33,21 @@ RcProbes == RcLatP \X Q
 RcValidProbe(p) == p[1] \in LatQ
 
 VARIABLE t
-Init == t \in UNION {
+\* Unary states are successors of NRoot root states (TLC computes and checks initial states
+\* single-threaded; the roots only partition the work).
+NRoot == 16
+Unaries == UNION {
             IF "s1" \in Fams THEN {<<"s1", I>> : I \in Pick(SIntervals, AIdxS1)} ELSE {},
             IF "pp" \in Fams THEN {<<"pp", a>> : a \in Pos} ELSE {},
             IF "r1" \in Fams THEN {<<"r1", I>> : I \in RIntervals} ELSE {},
             IF "r2" \in Fams THEN {<<"r2", R>> : R \in R2Rects} ELSE {},
             IF "rc" \in Fams THEN {<<"rc", R>> : R \in Pick(RcRects, AIdxRc)} ELSE {} }
-Next == /\ Len(t) = 2
-        /\ t' \in CASE t[1] = "s1" -> {<<"s1", t[2], J>> : J \in SIntervals}
+USeq == SetToSeq(Unaries)
+Init == t \in {<<"root", r, 0, 0>> : r \in 1..NRoot}
+Next == \/ /\ Len(t) = 4
+           /\ t' \in {USeq[i] : i \in {j \in 1..Len(USeq) : j % NRoot = t[2] % NRoot}}
+        \/ /\ Len(t) = 2
+           /\ t' \in CASE t[1] = "s1" -> {<<"s1", t[2], J>> : J \in SIntervals}
                     [] t[1] = "pp" -> {<<"pp", t[2], b>> : b \in Pos}
                     [] t[1] = "r1" -> {<<"r1", t[2], J>> : J \in RIntervals}
                     [] t[1] = "r2" -> {<<"r2", t[2], S>> : S \in R2Rects}
@@ -272,7 +279,8 @@ CaseRcB ==
 
 Emit ==
     PrintT(<<"CASE", ToJson(
-        CASE F = "s1" /\ Un -> CaseS1U [] F = "s1" /\ Bin -> CaseS1B
+        CASE F = "root" -> [op |-> "c19nop"]
+          [] F = "s1" /\ Un -> CaseS1U [] F = "s1" /\ Bin -> CaseS1B
           [] F = "pp" /\ Un -> [op |-> "c19nop"] [] F = "pp" /\ Bin -> CasePP
           [] F = "r1" /\ Un -> CaseR1U [] F = "r1" /\ Bin -> CaseR1B
           [] F = "r2" /\ Un -> CaseR2U [] F = "r2" /\ Bin -> CaseR2B
